@@ -291,8 +291,35 @@ func (a *txnAnalysis) applyCall(call *ast.CallExpr, s txnS) []callOutcome {
 			if csig.Recv() != nil {
 				if a.mode == modeCoder && a.eff.isFlatType(csig.Recv().Type()) && loc == nil {
 					if a.p.transactionalHelper(callee) {
-						// the helper commits only on its success paths (checked on its own body)
-						return []callOutcome{{a.applySummary(callee, call, s), triYes}, {s, triNo}}
+						// the helper commits only on its success paths (checked on its own body); each of its
+						// successful returns fixes what it found out about the name/namespace atoms on the way
+						out := []callOutcome{{s, triNo}}
+						outs := a.p.txnHelperOuts[callee]
+						if len(outs) == 0 {
+							out = append(out, callOutcome{a.applySummary(callee, call, s), triYes})
+						}
+						compatible := func(have, got tri) bool { return have == triUnknown || got == triUnknown || have == got }
+						for _, o := range outs {
+							if !compatible(s.need, o.need) || !compatible(s.valid, o.valid) {
+								continue
+							}
+							s2 := s
+							if o.mut {
+								s2 = a.applySummary(callee, call, s)
+							}
+							if o.need != triUnknown {
+								s2.need = o.need
+							} else {
+								s2.need = s.need
+							}
+							if o.valid != triUnknown {
+								s2.valid = o.valid
+							} else {
+								s2.valid = s.valid
+							}
+							out = append(out, callOutcome{s2, triYes})
+						}
+						return out
 					}
 					return []callOutcome{{a.applySummary(callee, call, s), triUnknown}}
 				}
@@ -811,13 +838,32 @@ func (p *Program) transactionalHelper(fn *types.Func) bool {
 	a := newTxnAnalysis(p, f, modeCoder)
 	a.abstract = abs
 	ok, nret := true, 0
+	seen := map[txnOutcome]bool{}
+	var outs []txnOutcome
 	a.onReturn = func(r *ast.ReturnStmt, s txnS, rc retClass) {
 		nret++
 		if s.mut && rc.fail != triNo && !rc.flush {
 			ok = false
 		}
+		if rc.fail != triYes { // a (possibly) successful return: what is known about the state there
+			o := txnOutcome{mut: s.mut, need: s.need, valid: s.valid}
+			if !seen[o] {
+				seen[o] = true
+				outs = append(outs, o)
+			}
+		}
 	}
 	a.run(txnS{})
 	p.txnHelper[fn] = ok && nret > 0
+	if p.txnHelperOuts == nil {
+		p.txnHelperOuts = map[*types.Func][]txnOutcome{}
+	}
+	p.txnHelperOuts[fn] = outs
 	return p.txnHelper[fn]
+}
+
+// txnOutcome is what is known at one successful return of a transactional helper.
+type txnOutcome struct {
+	mut         bool
+	need, valid tri
 }
